@@ -26,6 +26,8 @@ TEMPLATES = {
     'T2d': {'N': 10, 'par': [-1, 0, 1, 2, 3, 3, 2, 6, 6, 1], 'kind': [C, C, O, C, B, B, C, B, B, D]},
     # root||{R1{A,B,H}, R2{C1,C2}}
     'T3s': {'N': 7, 'par': [-1, 0, 1, 1, 1, 0, 5], 'kind': [O, C, B, B, S, C, B]},
+    # root{Z, O||{P{a,b,H*}, R2{x,y}}}: the deep history's parent is a region that is exited together with its sibling
+    'T5d': {'N': 10, 'par': [-1, 0, 0, 2, 3, 3, 3, 2, 7, 7], 'kind': [C, B, O, C, B, B, D, C, B, B]},
     # root{P{A{X,Y},Hs,Hd}, Z}: shallow and deep history side by side
     'T4': {'N': 8, 'par': [-1, 0, 1, 2, 2, 1, 1, 0], 'kind': [C, C, C, B, B, S, D, B]},
 }
@@ -34,6 +36,8 @@ LEVELS = {
         {'name': 'L1-N5-M2-K3', 'N': 5, 'M': 2, 'K': 3, 'guards': 0, 'namings': ['rev'], 'budget_s': 100},
         {'name': 'L2-T1T4-M2-K3', 'templates': ['T1s', 'T1d', 'T4'], 'M': 2, 'K': 3, 'guards': 0, 'namings': ['rev', 'mix'], 'budget_s': 90},
         {'name': 'L3-T3-M2-K2', 'templates': ['T3s'], 'M': 2, 'K': 2, 'guards': 1, 'budget_s': 60},
+        {'name': 'L4-T5d-M2-K3', 'templates': ['T5d'], 'M': 2, 'K': 3, 'guards': 0, 'namings': ['id', 'rev'], 'nevents': 1,
+         'budget_s': 60},
     ],
     'thorough': [
         {'name': 'L1-N5-M2-K4', 'N': 5, 'M': 2, 'K': 4, 'guards': 1, 'budget_s': 900},
@@ -56,7 +60,7 @@ def shards(level):
         out = []
         for name in level['templates']:
             sk = dict(TEMPLATES[name])
-            out.extend(dict(s, template=name) for s in cg.split_shards([sk], level['M']))
+            out.extend(dict(s, template=name) for s in cg.split_shards([sk], level['M'], nevents=level.get('nevents', 2)))
         return out
     return cg.split_shards(cg.skeletons(level['N'], KINDS, require_history=True), level['M'])
 
@@ -65,7 +69,7 @@ def expand(job, level):
     if 'chart' in job:
         yield job['chart']
         return
-    yield from cg.charts(job['skel'], level['M'], nevents=2, targets='free', fix=job.get('fix'),
+    yield from cg.charts(job['skel'], level['M'], nevents=level.get('nevents', 2), targets='free', fix=job.get('fix'),
                          hist_target=True)
 
 
